@@ -99,10 +99,14 @@ impl Allocator {
     /// Kills an entity atomically (will be updated when the allocator is
     /// maintained).
     pub fn kill_atomic(&self, e: Entity) -> Result<(), WrongGeneration> {
+        #[cfg(specs_verif)]
+        crate::verif::yield_point("kill_atomic.enter");
         if !self.is_alive(e) {
             return Err(self.del_err(e));
         }
 
+        #[cfg(specs_verif)]
+        crate::verif::yield_point("kill_atomic.before_add");
         self.killed.add_atomic(e.id());
 
         Ok(())
@@ -149,11 +153,17 @@ impl Allocator {
 
     /// Allocate a new entity
     pub fn allocate_atomic(&self) -> Entity {
+        #[cfg(specs_verif)]
+        crate::verif::yield_point("allocate_atomic.enter");
         let id = self.cache.pop_atomic().unwrap_or_else(|| {
             atomic_increment(&self.max_id).expect("No entity left to allocate") as Index
         });
 
+        #[cfg(specs_verif)]
+        crate::verif::yield_point("allocate_atomic.before_raise");
         self.raised.add_atomic(id);
+        #[cfg(specs_verif)]
+        crate::verif::yield_point("allocate_atomic.after_raise");
         let gen = self
             .generation(id)
             .map(|gen| if gen.is_alive() { gen } else { gen.raised() })
@@ -319,7 +329,47 @@ impl EntitiesRes {
     /// Returns `true` if the specified entity is alive.
     #[inline]
     pub fn is_alive(&self, e: Entity) -> bool {
+        #[cfg(specs_verif)]
+        crate::verif::yield_point("entities.is_alive");
         self.alloc.is_alive(e)
+    }
+}
+
+/// Read-only copy of the allocator's internal state (verification hook).
+#[cfg(specs_verif)]
+#[derive(Clone, Debug, Default, PartialEq, Eq)]
+pub struct VerifAllocSnapshot {
+    /// Raw generation per index (`0` = never used, negative = dead).
+    pub generations: Vec<i32>,
+    /// Indices in the `alive` set.
+    pub alive: Vec<Index>,
+    /// Indices in the `raised` set.
+    pub raised: Vec<Index>,
+    /// Indices in the `killed` set.
+    pub killed: Vec<Index>,
+    /// The free list's backing vector (may be longer than `cache_len`).
+    pub cache: Vec<Index>,
+    /// The free list's atomic length.
+    pub cache_len: usize,
+    /// The next never-used index.
+    pub max_id: usize,
+}
+
+#[cfg(specs_verif)]
+impl EntitiesRes {
+    /// Copies the allocator's internal state (verification hook).
+    pub fn verif_snapshot(&self) -> VerifAllocSnapshot {
+        use hibitset::BitSetLike;
+        let a = &self.alloc;
+        VerifAllocSnapshot {
+            generations: a.generations.iter().map(|g| g.id()).collect(),
+            alive: (&a.alive).iter().collect(),
+            raised: (&a.raised).iter().collect(),
+            killed: (&a.killed).iter().collect(),
+            cache: a.cache.cache.clone(),
+            cache_len: a.cache.len.load(Ordering::Relaxed),
+            max_id: a.max_id.load(Ordering::Relaxed),
+        }
     }
 }
 
@@ -538,6 +588,8 @@ struct EntityCache {
 
 impl EntityCache {
     fn pop_atomic(&self) -> Option<Index> {
+        #[cfg(specs_verif)]
+        crate::verif::yield_point("pop_atomic.enter");
         atomic_decrement(&self.len).map(|x| self.cache[x - 1])
     }
 
@@ -568,6 +620,14 @@ fn atomic_increment(i: &AtomicUsize) -> Option<usize> {
     use std::usize;
     let mut prev = i.load(Ordering::Relaxed);
     while prev != usize::MAX {
+        #[cfg(specs_verif)]
+        crate::verif::yield_point("atomic_increment.before_cas");
+        #[cfg(specs_verif)]
+        if crate::verif::buggify("atomic_increment.spurious") {
+            // A weak compare-exchange may fail spuriously.
+            prev = i.load(Ordering::Relaxed);
+            continue;
+        }
         match i.compare_exchange_weak(prev, prev + 1, Ordering::Relaxed, Ordering::Relaxed) {
             Ok(x) => return Some(x),
             Err(next_prev) => prev = next_prev,
@@ -582,6 +642,14 @@ fn atomic_increment(i: &AtomicUsize) -> Option<usize> {
 fn atomic_decrement(i: &AtomicUsize) -> Option<usize> {
     let mut prev = i.load(Ordering::Relaxed);
     while prev != 0 {
+        #[cfg(specs_verif)]
+        crate::verif::yield_point("atomic_decrement.before_cas");
+        #[cfg(specs_verif)]
+        if crate::verif::buggify("atomic_decrement.spurious") {
+            // A weak compare-exchange may fail spuriously.
+            prev = i.load(Ordering::Relaxed);
+            continue;
+        }
         match i.compare_exchange_weak(prev, prev - 1, Ordering::Relaxed, Ordering::Relaxed) {
             Ok(x) => return Some(x),
             Err(next_prev) => prev = next_prev,
